@@ -77,6 +77,9 @@ func runC11(c *core.Ctx) {
 		emitRules(c, s)
 		stageLifecycleRules(c, s, lifecycleOpts{})
 	}
+	// "both stop and close their channels after cancel" goes through the error hand-off too: a Try function that keeps
+	// failing keeps the stage in catch; the closed-world catch implementations must give up on cancellation
+	catchImplBlocking(c, "pipe")
 }
 
 func unfoldStep(c *core.Ctx, s *Stage) {
